@@ -121,9 +121,10 @@ Definition carry_difficulty (d : DifficultyState) : DifficultyState :=
 
 (* ---------- [Events] ---------- *)
 
-(* a break never ends before it starts: the decoder reads the end as max(start, end) *)
+(* a break never ends before it starts: the decoder keeps the written end unless it
+   lies before the start -- the plain order condition, zeros of either sign included *)
 Definition break_ok (b : BreakPeriod) : bool :=
-  in_lim64 (bp_start b) && in_lim64 (bp_end b) && f64_eqb (D.max (bp_start b) (bp_end b)) (bp_end b).
+  in_lim64 (bp_start b) && in_lim64 (bp_end b) && negb (D.lt (bp_end b) (bp_start b)).
 Definition events_ok (e : EventsState) : bool :=
   bg_ok (ev_background_file e) && forallb break_ok (ev_breaks e).
 
